@@ -84,6 +84,22 @@ def gen(seed, tier):
             else:
                 ops.append(smsg(r, r.randrange(ndev), r.choice(FAST), r.choice([5, 9, 13, 14, 30, 100, 223])))
         cases.append(cfg + ' | ' + ' ; '.join(ops))
+    # runs of frames with the SAME identifier and length and different data, queued one after the other under back-pressure (a periodic PGN
+    # repeated, ISO-TP data packets, repeated acknowledgements): every one of them reaches the driver, in order (seed C11-15)
+    for _ in range(20 if not thorough else 300):
+        ndev = r.choice([1, 2])
+        cfg = 'NODE mode=1 ndev=%d src=30 q=%d t0=5000 tx0=129029' % (ndev, r.choice([3, 5, 8, 40]))
+        pgn, pri, n, idev = r.choice(SINGLE), r.choice([2, 3, 6]), r.choice([8, 8, 3, 0]), r.randrange(ndev)
+        rep = lambda: 'S %d %d %d 0 255 0 %s' % (idev, pri, pgn, bytes(r.randrange(256) for _ in range(n)).hex() or '-')
+        ops = ['A ' + '0' * r.choice([3, 8, 30])]
+        for _k in range(r.randint(3, 7)):
+            ops.append(rep())
+            if r.random() < 0.25:
+                ops.append(smsg(r, r.randrange(ndev), r.choice(SINGLE + FAST), r.choice([8, 9, 20])))
+            if r.random() < 0.2:
+                ops.append('F')
+        ops += ['A', 'F', rep(), rep(), 'F']
+        cases.append(cfg + ' | ' + ' ; '.join(ops))
     cases += large_queue_cases(r, thorough)
     return cases
 
